@@ -11,6 +11,7 @@ import GfsModel.Seqinfo
 import GfsModel.Expected
 import GfsGen.Facts
 import GfsProofs.SeqinfoLemmas
+import GfsModel.ExpectedSrc
 
 namespace Gfs.Props.C18
 open Gfs Gfs.Seqinfo Gfs.Proofs
@@ -41,5 +42,10 @@ theorem C18_keyed_by_pattern (pat : Bytes) (o : Opts) (r : Result) (h : Seqinfo.
 
 /-- the goroutine-per-pattern / channel skeleton re-extracted from seqinfo.go on this run -/
 theorem C18_skeleton : Gfs.Gen.seqinfoSkeleton = Gfs.expectedSeqinfoSkeleton := by decide
+
+/-- the declarations of /repo this property's model and specification were written from are,
+    on this run, the ones the model was last aligned with (digest of their comment- and
+    layout-insensitive fingerprints, re-extracted by tools/gofacts) -/
+theorem C18_source : Gfs.Gen.sourceDigestC18 = Gfs.expectedSourceDigestC18 := by decide
 
 end Gfs.Props.C18
